@@ -115,6 +115,8 @@ class DocGen:
         self.unit = unit or rng.choice(["  ", "    ", "\t", "  ", "\t", " \t"])
         self.safe_text = safe_text
         self.strict_unwrap = False
+        self.blank_wrappers = 0.0     # probability that a wrapper line of an unwrap-block is blank
+        self.used_blank_wrapper = False
         self.stats = {"elements": 0, "ready": 0, "pending": 0, "skip": 0, "unreg": 0, "unwrap": 0,
                       "inline": 0, "depth": 0}
 
@@ -222,11 +224,19 @@ class DocGen:
                         out.append(ind + self.close_tag(name))
                         continue
                     if wrappers >= 1:
-                        out.append(ind + "if (" + self.word() + ") {")
+                        if self.blank_wrappers and r.random() < self.blank_wrappers:
+                            self.used_blank_wrapper = True
+                            out.append(r.choice(["", ind, ind + self.unit]))
+                        else:
+                            out.append(ind + "if (" + self.word() + ") {")
                     if nbody:
                         out.extend(self.block(depth + 1, ind + self.unit, kinds, p_unwrap, nbody))
                     if wrappers >= 2:
-                        out.append(ind + "}")
+                        if self.blank_wrappers and r.random() < self.blank_wrappers:
+                            self.used_blank_wrapper = True
+                            out.append(r.choice(["", ind]))
+                        else:
+                            out.append(ind + "}")
                 else:
                     if r.random() < 0.9:
                         out.extend(self.block(depth + 1, ind if r.random() < 0.5 else ind + self.unit,
